@@ -93,6 +93,14 @@ static Index gv_set_size(const struct gv_set *s) { return s->n; }
 static const gv_pair *gv_set_begin(const struct gv_set *s) { return s->a; }
 static const gv_pair *gv_set_end(const struct gv_set *s) { return s->a + s->n; }
 
+/* IntegerList::dim() by its CONTRACT (proved on the real body: unit smatrix_ordering, check il_dim).  The real body's
+   pointer difference e - m is not constant-folded by CBMC's symbolic execution (measured), the offsets are. */
+static Index IntegerList_dim(const struct IntegerList *self)
+{
+  __CPROVER_assert(SAME(self->e, self->m), "IntegerList::dim contract: m and e point into one object (or both are null)");
+  return (Index)((OFF(self->e) - OFF(self->m)) / (long)sizeof(Index));
+}
+
 /* forward declarations (definitions are extracted in file order) */
 void  IntegerList_ctor1(struct IntegerList *self, Index n);
 Index SparseMatrix_columns(const struct SparseMatrix *self);
@@ -102,8 +110,6 @@ Index SparseMatrix_columns(const struct SparseMatrix *self);
 /* entry canaries: every extracted function */
 //@ entry IntegerList_ctor1
 GV_CANARY("IntegerList_ctor1 entry");
-//@ entry IntegerList_dim
-GV_CANARY("IntegerList_dim entry");
 //@ entry IntegerList_reset0
 GV_CANARY("IntegerList_reset0 entry");
 //@ entry IntegerList_reset1
@@ -171,10 +177,10 @@ static void mk_graph(struct Adjacency *g, Index n, Index nnz, bool simple)
 {
   g->nods = n;
   Index xs = n + 2 > 3 ? n + 2 : 3;
-  g->xadj.m = malloc(xs * sizeof(Index));
+  g->xadj.m = GV_NEW(Index, xs);
   __CPROVER_assume(g->xadj.m);
   g->xadj.e = g->xadj.m + xs;
-  g->adjncy.m = malloc(nnz * sizeof(Index));     /* nnz == 0: an empty non-null object (see assumptions) */
+  g->adjncy.m = GV_NEW(Index, nnz);
   __CPROVER_assume(g->adjncy.m);
   g->adjncy.e = g->adjncy.m + nnz;
   __CPROVER_assume(g->xadj.m[1] == 0);
@@ -261,10 +267,10 @@ static void mk_graph_bits(struct Adjacency *g, Index n, unsigned bits, bool rev)
       if (y <= n && ((bits >> ((y - 1) * (y - 2) / 2 + (x - 1))) & 1u)) { gv_A[x][y] = 1; gv_A[y][x] = 1; nnz += 2; }
   g->nods = n;
   Index xs = n + 2 > 3 ? n + 2 : 3;
-  g->xadj.m = malloc(xs * sizeof(Index));
+  g->xadj.m = GV_NEW(Index, xs);
   __CPROVER_assume(g->xadj.m);
   g->xadj.e = g->xadj.m + xs;
-  g->adjncy.m = malloc(nnz * sizeof(Index));
+  g->adjncy.m = GV_NEW(Index, nnz);
   __CPROVER_assume(g->adjncy.m);
   g->adjncy.e = g->adjncy.m + nnz;
   Index cnt = 0;
